@@ -16,7 +16,8 @@ def _mk_solver(ctx, ob, timeout_ms):
     s = z3.Solver()
     s.set("timeout", timeout_ms)
     s.add(ob.hyps)
-    s.add(ctx.axioms)
+    if not ob.meta.get("pure"):
+        s.add(ctx.axioms)
     s.add(tlib.pi_axioms())
     return s
 
@@ -41,8 +42,11 @@ def model_summary(m, inputs=None, limit=40):
 def discharge(ctx, ob, timeout_ms=10000, use_cvc5=False):
     """returns dict(status= proved|refuted|unknown, time, backend, model?)"""
     t0 = time.time()
-    s = _mk_solver(ctx, ob, timeout_ms)
+    full_timeout = timeout_ms
+    first = max(2000, timeout_ms // 3)
+    s = _mk_solver(ctx, ob, first)
     goal = ob.goal
+    ctx_axioms = [] if ob.meta.get("pure") else list(ctx.axioms)
     if ob.kind == "cover":
         s.add(goal)
         r = s.check()
@@ -64,19 +68,19 @@ def discharge(ctx, ob, timeout_ms=10000, use_cvc5=False):
     else:
         res["status"] = "unknown"
         res["reason"] = s.reason_unknown()
-        # second attempt: nlsat tactic for nonlinear real arithmetic
-        try:
-            t = z3.Then("simplify", "solve-eqs", "qfnra-nlsat")
-            s2 = t.solver()
-            s2.set("timeout", timeout_ms)
-            s2.add(ob.hyps); s2.add(ctx.axioms); s2.add(tlib.pi_axioms()); s2.add(z3.Not(goal))
-            r2 = s2.check()
-            if r2 == z3.unsat:
-                res.update(status="proved", backend="z3-nlsat")
-            elif r2 == z3.sat:
-                res.update(status="refuted", backend="z3-nlsat", model=model_summary(s2.model(), ctx.ghost.get("inputs")), _model=s2.model())
-        except z3.Z3Exception:
-            pass
+        # second attempt: sound weakening to pure QF_NRA + nlsat (only "unsat" is conclusive)
+        r2 = nlsat_check(list(ob.hyps) + ctx_axioms + tlib.pi_axioms() + [z3.Not(goal)], full_timeout)
+        if r2 == "unsat":
+            res.update(status="proved", backend="z3-nlsat(purified)")
+        else:
+            s3 = _mk_solver(ctx, ob, full_timeout)
+            s3.add(z3.Not(goal))
+            r3 = s3.check()
+            if r3 == z3.unsat:
+                res.update(status="proved", backend="z3")
+            elif r3 == z3.sat:
+                res.update(status="refuted", backend="z3", model=model_summary(s3.model(), ctx.ghost.get("inputs")), _model=s3.model())
+            s = s3
         if res["status"] == "unknown" or use_cvc5:
             c = cvc5_check(s, timeout_ms)
             if c == "unsat":
@@ -123,3 +127,111 @@ def smt2_of(ctx, ob):
         return s.to_smt2()
     except Exception as e:
         return f"; to_smt2 failed: {e}"
+
+
+# ----------------------------------------------------------------------------- QF_NRA purification
+def purify(formulas):
+    """Sound weakening of a refutation problem to pure nonlinear REAL arithmetic:
+    - applications of uninterpreted functions/predicates -> fresh constants (one per syntactic term)
+    - integer variables relaxed to reals; to_real dropped; to_int / div / mod / other int-only terms -> fresh constants
+    unsat of the result implies unsat of the original (every model of the original induces one of the result)."""
+    cache = {}
+    fresh = {}
+    cnt = [0]
+
+    def fresh_const(t, sort):
+        k = t.get_id()
+        if k not in fresh:
+            cnt[0] += 1
+            fresh[k] = z3.Const(f"pf!{cnt[0]}", sort)
+        return fresh[k]
+
+    def rs(sort):
+        return z3.RealSort() if sort.kind() in (z3.Z3_INT_SORT, z3.Z3_REAL_SORT) else sort
+
+    def go(t):
+        k = t.get_id()
+        if k in cache:
+            return cache[k]
+        r = go1(t)
+        cache[k] = r
+        return r
+
+    def go1(t):
+        if z3.is_quantifier(t) or z3.is_var(t):
+            return fresh_const(t, rs(t.sort()))
+        if z3.is_int_value(t):
+            return z3.RealVal(t.as_long())
+        if z3.is_rational_value(t) or z3.is_true(t) or z3.is_false(t) or z3.is_algebraic_value(t):
+            return t
+        d = t.decl()
+        kind = d.kind()
+        n = t.num_args()
+        if kind == z3.Z3_OP_UNINTERPRETED:
+            if n == 0:
+                return z3.Const(d.name(), rs(t.sort())) if t.sort().kind() == z3.Z3_INT_SORT else t
+            return fresh_const(t, rs(t.sort()))
+        args = [go(t.arg(i)) for i in range(n)]
+        if kind == z3.Z3_OP_TO_REAL:
+            return args[0]
+        if kind in (z3.Z3_OP_TO_INT, z3.Z3_OP_IDIV, z3.Z3_OP_MOD, z3.Z3_OP_REM, z3.Z3_OP_IS_INT, z3.Z3_OP_POWER):
+            if kind == z3.Z3_OP_POWER and z3.is_rational_value(args[1]) and args[1].denominator_as_long() == 1 and 0 <= args[1].numerator_as_long() <= 6:
+                r = z3.RealVal(1)
+                for _ in range(args[1].numerator_as_long()):
+                    r = r * args[0]
+                return r
+            return fresh_const(t, rs(t.sort()))
+        if kind == z3.Z3_OP_ADD:
+            return z3.Sum(args) if len(args) > 1 else args[0]
+        if kind == z3.Z3_OP_MUL:
+            return z3.Product(args) if len(args) > 1 else args[0]
+        if kind == z3.Z3_OP_SUB:
+            r = args[0]
+            for a in args[1:]:
+                r = r - a
+            return r
+        if kind == z3.Z3_OP_UMINUS:
+            return -args[0]
+        if kind == z3.Z3_OP_DIV:
+            return args[0] / args[1]
+        if kind == z3.Z3_OP_LE:
+            return args[0] <= args[1]
+        if kind == z3.Z3_OP_LT:
+            return args[0] < args[1]
+        if kind == z3.Z3_OP_GE:
+            return args[0] >= args[1]
+        if kind == z3.Z3_OP_GT:
+            return args[0] > args[1]
+        if kind == z3.Z3_OP_EQ:
+            return args[0] == args[1]
+        if kind == z3.Z3_OP_DISTINCT:
+            return z3.Distinct(args)
+        if kind == z3.Z3_OP_ITE:
+            return z3.If(args[0], args[1], args[2])
+        if kind == z3.Z3_OP_AND:
+            return z3.And(args)
+        if kind == z3.Z3_OP_OR:
+            return z3.Or(args)
+        if kind == z3.Z3_OP_NOT:
+            return z3.Not(args[0])
+        if kind == z3.Z3_OP_IMPLIES:
+            return z3.Implies(args[0], args[1])
+        if kind == z3.Z3_OP_XOR:
+            return z3.Xor(args[0], args[1])
+        if kind == z3.Z3_OP_IFF:
+            return args[0] == args[1]
+        return fresh_const(t, rs(t.sort()))
+
+    return [go(f) for f in formulas]
+
+
+def nlsat_check(formulas, timeout_ms):
+    try:
+        pf = purify(formulas)
+        t = z3.Then("simplify", "purify-arith", "elim-term-ite", "solve-eqs", "qfnra-nlsat")
+        s = t.solver()
+        s.set("timeout", timeout_ms)
+        s.add(pf)
+        return str(s.check())
+    except z3.Z3Exception as e:
+        return f"error:{e}"
